@@ -3,6 +3,8 @@ package seq
 import (
 	"fmt"
 	"math/bits"
+	"sort"
+	"strings"
 
 	"berty.tech/go-ipfs-log/iface"
 
@@ -156,6 +158,28 @@ func heads8() []seqx.Op {
 	return p
 }
 
+// uneven merges: one writer's branch of k entries merged with another's of m, in both key orders; where the lagging
+// head lands in the traversal decides which power-of-two position it occupies
+func unevenPrefixes() map[string][]seqx.Op {
+	out := map[string][]seqx.Op{}
+	for k := 3; k <= 9; k++ {
+		for m := 1; m <= 3; m++ {
+			for _, d := range [][2]int{{0, 1}, {1, 0}} {
+				long, short := d[0], d[1]
+				p := append(append(chain(long, k), chain(short, m)...), seqx.Op{K: "join", A: long, B: short})
+				out[fmt.Sprintf("+uneven-%d-%d-w%d", k, m, long)] = p
+			}
+		}
+	}
+	return out
+}
+
+func init() {
+	for k, v := range unevenPrefixes() {
+		c04Prefixes[k] = v
+	}
+}
+
 var c04Prefixes = map[string][]seqx.Op{
 	"+heads8": heads8(),
 	// the writer moves to a second device: an identity with the same id and another public key
@@ -184,7 +208,20 @@ func c04Searches(p *run.Part, tier string) []*seqx.Search {
 				}
 			}}
 	}
-	return []*seqx.Search{
+	var uneven []*seqx.Search
+	var names []string
+	for k := range unevenPrefixes() {
+		names = append(names, k)
+	}
+	sort.Strings(names)
+	for _, k := range names {
+		long := 0
+		if strings.HasSuffix(k, "w1") {
+			long = 1
+		}
+		uneven = append(uneven, mk(CfgDef2, k, c04Prefixes[k], []seqx.Op{{K: "app", A: long, N: 1}, {K: "app", A: long, N: 2}, {K: "app", A: long, N: 4}, {K: "app", A: long, N: 8}, {K: "app", A: long, N: 16}, {K: "app", A: 1 - long, N: 4}}, 1))
+	}
+	return append(uneven, []*seqx.Search{
 		mk(CfgDef3, "", nil, Alphabet(3, false), d3),
 		mk(CfgDef2, "", nil, rich2, d2+1),
 		mk(CfgShared3, "", nil, Alphabet(3, false), d3-1),
@@ -197,7 +234,7 @@ func c04Searches(p *run.Part, tier string) []*seqx.Search {
 		mk(CfgDef3, "+setid-device", c04Prefixes["+setid-device"], rich3, pd+1),
 		mk(cfgMany8, "+heads8", c04Prefixes["+heads8"], []seqx.Op{{K: "app", A: 0, N: 1}, {K: "app", A: 0, N: 2}, {K: "app", A: 0, N: 4}, {K: "app", A: 0, N: 16},
 			{K: "app", A: 1}, {K: "join", A: 1, B: 0}, {K: "join", A: 0, B: 1}}, pd+1),
-	}
+	}...)
 }
 
 func init() {
